@@ -722,3 +722,132 @@ def gen_state_code():
     ok, log = compile_gen('StateCode.v')
     return ('statecode: state code of names and of the state array + naming branches + label map shape', ok,
             'ok' if ok else f'generated codes {c1} / {c2}: ' + log[-400:])
+
+
+# ---------------------------------------------------------------- unit: scalar formulas (C14, C09, C05)
+class _Formula:
+    """Symbolic evaluation of a straight-line scalar method body into a Coq real expression.
+
+    atoms: {normalised source text of an opaque sub-expression (local names expanded): Coq text}
+    names: {python name: Coq text} (parameters and constants)
+    Statements allowed: docstring, `x = expr`, `x *= expr`, `return expr`.
+    Expressions allowed: atoms, names, int/float literals, + - * /, ** small int, unary -,
+    FloatWithUnit(e, '<unit>') (a float subclass: value e)."""
+
+    def __init__(self, atoms, names):
+        self.atoms, self.names = atoms, names
+        self.env = {}     # local name -> Coq text
+        self.envast = {}  # local name -> ast (for expanding opaque expressions)
+
+    def expand(self, node):
+        envast = self.envast
+
+        class T(ast.NodeTransformer):
+            def visit_Name(self, n):
+                return envast.get(n.id, n)
+        import copy
+        return ast.unparse(T().visit(copy.deepcopy(node)))
+
+    def ev(self, node):
+        txt = self.expand(node)
+        if txt in self.atoms:
+            return self.atoms[txt]
+        if isinstance(node, ast.Name):
+            if node.id in self.env:
+                return self.env[node.id]
+            if node.id in self.names:
+                return self.names[node.id]
+            raise Unsupported(f'name {node.id}')
+        if isinstance(node, ast.Constant) and isinstance(node.value, (int, float)) and not isinstance(node.value, bool):
+            from fractions import Fraction
+            q = Fraction(repr(node.value))
+            return f'({q.numerator})' if q.denominator == 1 else f'({q.numerator} / {q.denominator})'
+        if isinstance(node, ast.BinOp):
+            if isinstance(node.op, ast.Pow):
+                if isinstance(node.right, ast.Constant) and node.right.value in (2, 3):
+                    return f'({self.ev(node.left)} ^ {node.right.value})'
+                raise Unsupported('power ' + ast.unparse(node))
+            ops = {ast.Add: '+', ast.Sub: '-', ast.Mult: '*', ast.Div: '/'}
+            if type(node.op) not in ops:
+                raise Unsupported('operator ' + ast.unparse(node))
+            return f'({self.ev(node.left)} {ops[type(node.op)]} {self.ev(node.right)})'
+        if isinstance(node, ast.UnaryOp) and isinstance(node.op, ast.USub):
+            return f'(- {self.ev(node.operand)})'
+        if (isinstance(node, ast.Call) and isinstance(node.func, ast.Name) and node.func.id == 'FloatWithUnit' and len(node.args) == 2
+                and not node.keywords and isinstance(node.args[1], ast.Constant)):
+            return self.ev(node.args[0])
+        raise Unsupported('expression ' + txt)
+
+    def run(self, f):
+        body = list(f.body)
+        if body and isinstance(body[0], ast.Expr) and isinstance(body[0].value, ast.Constant) and isinstance(body[0].value.value, str):
+            body = body[1:]
+        for st in body:
+            if isinstance(st, ast.Assign) and len(st.targets) == 1 and isinstance(st.targets[0], ast.Name):
+                name = st.targets[0].id
+                try:
+                    self.env[name] = self.ev(st.value)
+                    self.envast.pop(name, None)
+                except Unsupported:
+                    # opaque so far: keep the (expanded) source, it must become part of an atom later
+                    self.envast[name] = ast.parse(self.expand(st.value), mode='eval').body
+                    self.env.pop(name, None)
+            elif isinstance(st, ast.AugAssign) and isinstance(st.target, ast.Name) and isinstance(st.op, ast.Mult) and st.target.id in self.env:
+                self.env[st.target.id] = f'({self.env[st.target.id]} * {self.ev(st.value)})'
+            elif isinstance(st, ast.Return):
+                return self.ev(st.value)
+            else:
+                raise Unsupported('statement ' + ast.unparse(st)[:80])
+        raise Unsupported('no return')
+
+
+_CONSTS = {'angstrom': 'angstrom', 'Avogadro': 'N_A', 'Boltzmann': 'k_B', 'elementary_charge': 'e_charge'}
+
+
+def formulas_c14_unit():
+    tree = _parse('metrics.py')
+    imp = [n for n in tree.body if isinstance(n, ast.ImportFrom) and n.module == 'scipy.constants']
+    if not imp or sorted(a.name for a in imp[0].names) != ['Avogadro', 'Boltzmann', 'angstrom', 'elementary_charge'] or any(a.asname for a in imp[0].names):
+        raise Unsupported('scipy.constants import')
+    out = {}
+    F = lambda atoms, names: _Formula(atoms, {**_CONSTS, **names})
+    out['particle_density'] = F({'len(self.trajectory.species)': 'n', 'self.trajectory.get_lattice().volume': 'vol'}, {}).run(
+        _find_func(tree, 'TrajectoryMetrics', 'particle_density'))
+    out['mol_per_liter'] = F({'self.particle_density()': 'rho'}, {}).run(_find_func(tree, 'TrajectoryMetrics', 'mol_per_liter'))
+    out['tracer_diffusivity'] = F({'np.mean(self.trajectory.distances_from_base_position()[:, -1] ** 2)': 'msd', 'self.trajectory.total_time': 'total_time'},
+                                  {'dimensions': 'dim'}).run(_find_func(tree, 'TrajectoryMetrics', 'tracer_diffusivity'))
+    out['haven_ratio'] = F({'self.tracer_diffusivity(dimensions=dimensions)': 'd_tracer', 'self.tracer_diffusivity_center_of_mass(dimensions=dimensions)': 'd_com'},
+                           {}).run(_find_func(tree, 'TrajectoryMetrics', 'haven_ratio'))
+    out['tracer_conductivity'] = F({"self.trajectory.metadata['temperature']": 'temperature', 'self.tracer_diffusivity(dimensions=dimensions)': 'diff',
+                                    'self.particle_density()': 'rho'}, {'z_ion': 'z_ion'}).run(_find_func(tree, 'TrajectoryMetrics', 'tracer_conductivity'))
+    com = _find_func(tree, 'TrajectoryMetrics', 'tracer_diffusivity_center_of_mass')
+    src = [ast.unparse(s) for s in com.body if not (isinstance(s, ast.Expr) and isinstance(s.value, ast.Constant))]
+    if src != ['center_of_mass = self.trajectory.center_of_mass()', 'metrics = TrajectoryMetrics(center_of_mass)',
+               'return metrics.tracer_diffusivity(dimensions=dimensions)']:
+        raise Unsupported('tracer_diffusivity_center_of_mass body')
+    sp = _find_func(tree, 'TrajectoryMetrics', 'speed')
+    src = [ast.unparse(s) for s in sp.body if not (isinstance(s, ast.Expr) and isinstance(s.value, ast.Constant))]
+    if src != ['distances = self.trajectory.distances_from_base_position()', 'return np.diff(distances, prepend=0)']:
+        raise Unsupported('speed body')
+    return out
+
+
+def gen_formulas_c14():
+    os.makedirs(GEN, exist_ok=True)
+    try:
+        f = formulas_c14_unit()
+    except Unsupported as e:
+        return ('formulas14', False, f'translator: unsupported {e}')
+    sig = {'particle_density': 'n vol', 'mol_per_liter': 'rho', 'tracer_diffusivity': 'msd dim total_time', 'haven_ratio': 'd_tracer d_com',
+           'tracer_conductivity': 'z_ion diff rho temperature'}
+    hyp = {'particle_density': 'vol <> 0', 'mol_per_liter': 'True', 'tracer_diffusivity': 'dim <> 0 -> total_time <> 0', 'haven_ratio': 'd_com <> 0',
+           'tracer_conductivity': 'temperature <> 0'}
+    lines = ['(* GENERATED from /repo/src/gemdat/metrics.py on every run -- do not edit *)', 'From Coq Require Import Reals Lra.', 'From GV Require Import Model.C14.',
+             'Open Scope R_scope.']
+    for k, params in sig.items():
+        lines.append(f'Definition gen_{k} ({params} : R) : R := {f[k]}.')
+        lines.append(f'Lemma gen_{k}_is_model : forall {params}, {hyp[k]} -> gen_{k} {params} = {k} {params}.')
+        lines.append(f'Proof. intros. unfold gen_{k}, {k}, angstrom, N_A, k_B, e_charge. field; repeat split; try assumption; try lra. Qed.')
+    open(os.path.join(GEN, 'Formulas14.v'), 'w').write('\n'.join(lines) + '\n')
+    ok, log = compile_gen('Formulas14.v')
+    return ('formulas14: the five closed-form metrics of metrics.py, regenerated, equal the model formulas (field)', ok, 'ok' if ok else log[-600:])
